@@ -106,12 +106,13 @@ func (session *BaseInSession) InitWithSdp(sdpCtx sdp.LogicContext) {
 	session.sdpCtx = sdpCtx
 	session.mu.Unlock()
 
-	if session.sdpCtx.IsAudioUnpackable() {
+	// unpackers divide rtp timestamps by uint32(clockRate/1000), a clock rate from the sdp that makes it zero is not unpackable
+	if session.sdpCtx.IsAudioUnpackable() && uint32(session.sdpCtx.AudioClockRate/1000) != 0 {
 		session.audioUnpacker = rtprtcp.DefaultRtpUnpackerFactory(session.sdpCtx.GetAudioPayloadTypeBase(), session.sdpCtx.AudioClockRate, unpackerItemMaxSize, session.onAvPacketUnpacked)
 	} else {
 		Log.Warnf("[%s] audio unpacker not support for this type yet. logicCtx=%+v", session.UniqueKey(), session.sdpCtx)
 	}
-	if session.sdpCtx.IsVideoUnpackable() {
+	if session.sdpCtx.IsVideoUnpackable() && uint32(session.sdpCtx.VideoClockRate/1000) != 0 {
 		session.videoUnpacker = rtprtcp.DefaultRtpUnpackerFactory(session.sdpCtx.GetVideoPayloadTypeBase(), session.sdpCtx.VideoClockRate, unpackerItemMaxSize, session.onAvPacketUnpacked)
 	} else {
 		Log.Warnf("[%s] video unpacker not support this type yet. logicCtx=%+v", session.UniqueKey(), session.sdpCtx)
